@@ -8,6 +8,7 @@ import Tahoe.Crypto.Use
     convtag K N SEG CONV | conv K N SEG DATA CONV | hmac TAG DATA | permute PSI SEED
     wcap WK | rcap RK | chk KEY | renew SECRET SI SEED | cancel SECRET SI SEED | dirkey WK RWURI | mutkeys PUB PRIV
     trackers ALLOC FRS FCS SRV… | uptrackers SECRET SI TOTAL ALLOC SRV… | pubwriters SECRET WK SRV/SHNUM… |
+    nativeserver foolscap|http SERVERID TUBID SEED|none PUBKEY|none  → permutationSeed:tubid:leaseSeed:weSeed
     mutaddlease SECRET WK SRV | chkaddlease SECRET SI SRV      (SRV = serverid/leaseSeed/weSeed/maxImmutableShareSize)
     Output: hex fields joined by `:`; `AssertionError` / `ValueError` for the modelled exceptions. -/
 open Tahoe.Drv Tahoe.Crypto.Derive Tahoe.Base.Sha256 Tahoe.Base.NetstringEnc Tahoe.Crypto.Use
@@ -127,6 +128,11 @@ def handleOpt : List String → Option String
       pure (showLeaseMsg (mutableAddLease (mkMutNode (← bytesOfHex secret) (← bytesOfHex wk)) (← parseServer srv)))
   | ["chkaddlease", secret, si, srv] => do
       pure (showLeaseMsg (checkerAddLease (← bytesOfHex secret) (← bytesOfHex si) (← parseServer srv)))
+  | ["nativeserver", t, sid, tub, seed, pk] => do
+      let tr ← (if t == "foolscap" then some Transport.foolscap else if t == "http" then some Transport.http else none)
+      let optB (x : String) : Option (Option (List UInt8)) := if x == "none" then some none else (bytesOfHex x).map some
+      let n := nativeServer tr ⟨← bytesOfHex sid, ← bytesOfHex tub, ← optB seed, ← optB pk⟩
+      pure s!"{hexOfBytes n.permutationSeed}:{hexOfBytes n.tubid}:{hexOfBytes n.leaseSeed}:{hexOfBytes n.weSeed}"
   | _ => none
 
 def handle (toks : List String) : String :=
